@@ -61,9 +61,9 @@ ASSUMPTIONS = [
     "tomli is trusted to parse the generated TOML as written (key order = textual order)",
 ]
 FLOORS = {
-    "quick": {"distinct_nontrivial": 2500, "evaluations": 200000, "stacks": 1500, "display_values_compared": 150000,
-              "invalid_cases": 400, "invalid_rejected": 300, "cli_display_runs": 16, "diag_modules_checked": 200,
-              "cli_diag_files": 40},
+    "quick": {"distinct_nontrivial": 32000, "evaluations": 290000, "stacks": 1600, "nontrivial_cases": 60000,
+              "tie_cases": 5000, "display_values_compared": 17000, "invalid_cases": 700, "invalid_rejected": 550,
+              "cli_display_runs": 8, "cli_invalid_runs": 8, "diag_modules_checked": 250, "cli_diag_files": 48},
     "thorough": {"distinct_nontrivial": 15000, "evaluations": 4000000, "stacks": 30000,
                  "display_values_compared": 3000000, "invalid_cases": 400, "invalid_rejected": 300,
                  "cli_display_runs": 60, "diag_modules_checked": 2000, "cli_diag_files": 150},
@@ -210,6 +210,25 @@ def render(f: dict) -> str:
     return "\n".join(lines + tail) + "\n"
 
 
+def wit_files(stack: dict) -> list:
+    """Witness form of a stack: the TOML text of each file, in inclusion order."""
+    return [{"path": f["path"], "raw": render(f)} for f in stack["files"]]
+
+
+def stack_from_witness(files: list) -> dict:
+    """Rebuild the ordered structure from the TOML text (tomli keeps textual key order)."""
+    import tomli
+
+    out = []
+    for f in files:
+        f = dict(f)
+        if "top" not in f:
+            data = tomli.loads(f["raw"]).get("tool", {}).get("pyanalyze", {})
+            f["top"] = [[k, [[[kk, vv] for kk, vv in s.items()] for s in v] if k == "overrides" else v] for k, v in data.items()]
+        out.append(f)
+    return {"files": out}
+
+
 class Scratch:
     def __init__(self, tag: str):
         base = os.environ.get("VERIF_SCRATCH")
@@ -220,25 +239,40 @@ class Scratch:
         self.root = os.path.join(base, f"c18-{tag}-{os.getpid()}")
         os.makedirs(self.root, exist_ok=True)
         self.n = 0
+        self.free: list = []
+        self.made: set = set()
 
     def materialise(self, stack: dict) -> str:
-        """Write the stack into a fresh directory; returns the path of the main file."""
-        self.n += 1
-        d = os.path.join(self.root, f"s{self.n}")
-        os.makedirs(d)
+        """Write the stack into a directory of its own; returns the path of the main file.  Directories are
+        recycled (deleting is slow on the scratch file system): files are overwritten, and the names used by the
+        'missing file' cases (nope.toml, missing_dir/, absent.toml) are never written by anything."""
+        if self.free:
+            d = self.free.pop()
+        else:
+            self.n += 1
+            d = os.path.join(self.root, f"s{self.n}")
         for f in stack["files"]:
             p = os.path.join(d, f["path"])
-            os.makedirs(os.path.dirname(p), exist_ok=True)
-            with open(p, "w") as fh:
-                fh.write(render(f))
+            if os.path.dirname(p) not in self.made:
+                os.makedirs(os.path.dirname(p), exist_ok=True)
+                self.made.add(os.path.dirname(p))
+            # in-place overwrite: open(..., "w") on an existing file costs ~4 ms here (ext4 flushes on
+            # replace-via-truncate), O_WRONLY + ftruncate costs ~0.04 ms
+            data = render(f).encode("utf-8")
+            fd = os.open(p, os.O_WRONLY | os.O_CREAT, 0o644)
+            try:
+                os.write(fd, data)
+                os.ftruncate(fd, len(data))
+            finally:
+                os.close(fd)
         return os.path.join(d, stack["files"][0]["path"])
 
     def release(self, main_path: str) -> None:
         d = main_path
         while os.path.dirname(d) != self.root and len(d) > len(self.root):
             d = os.path.dirname(d)
-        if os.path.dirname(d) == self.root:
-            shutil.rmtree(d, ignore_errors=True)
+        if os.path.dirname(d) == self.root and d not in self.free:
+            self.free.append(d)
 
     def cleanup(self) -> None:
         global _SCRATCH, _PROJ
@@ -340,7 +374,7 @@ PROBE_SRC = '''def _f():
 def _probe(x):
     print(undefined_name_probe)
     y = {"k": 1, "k": 2}
-    if (1, 2):
+    if 1:
         pass
     return "%s" % x, y
 '''
@@ -420,6 +454,30 @@ def set_in_section(stack: dict, cmd: list, lid, opt: str, value):
             break
     else:
         sec.append([opt, value])
+    for f in stack["files"]:
+        if "top" in f:
+            f.pop("raw", None)  # re-render from the structure
+    return stack, cmd
+
+
+def uniquify(stack: dict, cmd: list):
+    """Copy of (stack, cmd) in which every occurrence of the shared list element gets a name of its own."""
+    stack, cmd = copy.deepcopy(stack), copy.deepcopy(cmd)
+    n = itertools.count(1)
+
+    def fix(sec):
+        for pair in sec:
+            if pair[0] in LISTS:
+                pair[1] = [f"dup{next(n)}" if x == SHARED else x for x in pair[1]]
+            elif pair[0] == "overrides":
+                for sub in pair[1]:
+                    fix(sub)
+
+    fix(cmd)
+    for f in stack["files"]:
+        if "top" in f:
+            fix(f["top"])
+            f.pop("raw", None)
     return stack, cmd
 
 
@@ -562,6 +620,19 @@ def judge_query(model, stack, cmd, options, path, opt) -> tuple:
     out = []
     if opt in LISTS:
         out += judge_list(model, path, opt, observed)
+        if out and isinstance(observed, list) and (SHARED in observed or SHARED in model.acceptable(path, opt)[0]):
+            # a repeated element cannot be attributed to a layer: re-observe with every occurrence made unique and,
+            # if the mismatch is still there, classify that observation instead
+            s2, c2 = uniquify(stack, cmd)
+            main = scratch().materialise(s2)
+            try:
+                again = judge_list(Model(s2, c2), path, opt, observe_api(build_options(main, c2), path, opt))
+            except Exception:  # noqa: BLE001
+                again = []
+            finally:
+                scratch().release(main)
+            if again:
+                out = again
     else:
         r = judge_scalar(model, stack, cmd, path, opt, observed)
         if r:
@@ -589,7 +660,7 @@ def judge_stack_query(stack, cmd, path, opt) -> list:
 
 
 def valid_rejected_key(e: BaseException) -> str:
-    msg = re.sub(r"'[^']*'|\"[^\"]*\"|/\S+", "X", str(e))
+    msg = re.sub(r"'[^']*'|\"[^\"]*\"|\S*[/.]\S*", "X", str(e))
     msg = re.sub(r"\d+", "#", msg)
     return f"valid-rejected|{type(e).__name__}|{msg[:60]}"
 
@@ -693,11 +764,14 @@ class Reporter:
         witness = dict(witness, key=key)
         if minimisable:
             path = tuple(p for p in witness["path"].split(".") if p)
-            s, c = minimise({"files": witness["files"]}, witness["cmd"], path, witness["opt"], key)
+            st = stack_from_witness(witness["files"])
+            for f in st["files"]:
+                f.pop("raw")  # re-rendered from the structure while shrinking
+            s, c = minimise(st, witness["cmd"], path, witness["opt"], key)
             for k, w in judge_stack_query(s, c, path, witness["opt"]):
                 if k == key:
                     what = w
-            witness = dict(witness, files=s["files"], cmd=c)
+            witness = dict(witness, files=wit_files(s), cmd=c)
             ctx.count("witnesses_minimised")
         ctx.violation(key, what, witness)
 
@@ -845,7 +919,7 @@ def check_stack(ctx, rep: Reporter, stack: dict, cmds: list, sample: dict) -> No
             last = ci == len(cmds) - 1
             ctx.count("stack_cmd_pairs")
             model = Model(stack, cmd)
-            wit0 = {"route": "api", "files": stack["files"], "cmd": cmd}
+            wit0 = {"route": "api", "files": wit_files(stack), "cmd": cmd}
             try:
                 options = build_options(main, cmd)
             except Exception as e:  # noqa: BLE001
@@ -857,9 +931,12 @@ def check_stack(ctx, rep: Reporter, stack: dict, cmds: list, sample: dict) -> No
                 k == "disable_all" for f in stack["files"] for kk, v in f.get("top", []) if kk == "overrides"
                 for s in v for k, _ in s)
             sweep_path = ctx.rng.choice(PATHS) if sweep else None
+            others = [c for c in ALL_CODES if c not in CODES]
+            if sweep and ctx.quick:
+                others = ctx.rng.sample(others, 16)
             api_values = {}
             for path in PATHS:
-                opts = OPTS if path != sweep_path else OPTS + [c for c in ALL_CODES if c not in CODES]
+                opts = OPTS if path != sweep_path else OPTS + others
                 for opt in opts:
                     ctx.count("evaluations")
                     ctx.count("api_queries")
@@ -884,11 +961,11 @@ def check_stack(ctx, rep: Reporter, stack: dict, cmds: list, sample: dict) -> No
                         api_values[(path, opt)] = observed
                     for key, what in res:
                         rep.report(key, what, dict(wit0, path=".".join(path), opt=opt), minimisable=True)
-            if len(ctx.samples) < 2:
+            if len(ctx.samples) < 2 and len(stack["files"]) > 1 and cmd:
                 ctx.sample({"files": {f["path"]: render(f) for f in stack["files"]}, "argv": cmd_argv(cmd),
                             "documented": {".".join(p) or "<top>": {o: model.acceptable(p, o)[0] for o in OPTS} for p in PATHS[:3]}})
             # --- route: the real command-line assembly, in-process -------------------------------------------
-            if sample.get("display", True):
+            if sample.get("display", True) and (last or not ctx.quick):
                 outcome, text = run_main_display(main, cmd)
                 ctx.count("display_runs")
                 if outcome != "exit:0":
@@ -897,7 +974,7 @@ def check_stack(ctx, rep: Reporter, stack: dict, cmds: list, sample: dict) -> No
                                f"main() --display-options on a valid stack: {outcome!r}", dict(wit0, route="display"))
                 else:
                     shown = parse_display(text)
-                    for opt in OPTS + ([c for c in ALL_CODES if c not in CODES] if sweep else []):
+                    for opt in OPTS + (others if sweep else []):
                         if ((), opt) not in api_values:
                             continue
                         ctx.count("evaluations")
@@ -912,10 +989,14 @@ def check_stack(ctx, rep: Reporter, stack: dict, cmds: list, sample: dict) -> No
                                              cwd=os.path.dirname(main), env={"NO_COLOR": "1"})
                         ctx.count("evaluations")
                         ctx.count("cli_display_runs")
-                        if cp.returncode != 0 or cp.stdout != text:
+                        theirs = parse_display(cp.stdout)
+                        names = [o for o in list(OPTS) + ALL_CODES if o in shown or o in theirs]
+                        ctx.count("cli_display_values_compared", len(names))
+                        diff = [(o, theirs.get(o), shown.get(o)) for o in names if theirs.get(o) != shown.get(o)]
+                        if cp.returncode != 0 or diff or len(names) < len(OPTS):
                             rep.report("route|cli-subprocess|display-differs-from-in-process-main",
-                                       f"python -m pyanalyze --display-options rc={cp.returncode}; first differing line: "
-                                       f"{first_diff(cp.stdout, text)!r}; stderr tail {cp.stderr[-200:]!r}",
+                                       f"python -m pyanalyze --display-options rc={cp.returncode}; (option, subprocess, in-process): "
+                                       f"{diff[:3]!r}; stderr tail {cp.stderr[-200:]!r}",
                                        dict(wit0, route="cli-display"))
             # --- route: diagnostics of a probe module ------------------------------------------------------
             if last and sample.get("diag"):
@@ -924,13 +1005,6 @@ def check_stack(ctx, rep: Reporter, stack: dict, cmds: list, sample: dict) -> No
                 check_diag_cli(ctx, rep, main, cmd, api_values, wit0)
     finally:
         work.release(main)
-
-
-def first_diff(a: str, b: str):
-    for x, y in itertools.zip_longest(a.splitlines(), b.splitlines()):
-        if x != y:
-            return (x, y)
-    return None
 
 
 _DIAG_SELFTEST = None
@@ -1092,6 +1166,7 @@ INVALID = [
     ("extended-file-missing", ("top",), 'extend_config = "missing_dir/pyproject.toml"'),
 ]
 NAMES = ["pyproject.toml", "base.toml", "common.toml"]
+NEUTRAL = "comprehension_length_inference_limit = 30"  # a valid key no fragment uses
 
 
 def invalid_cases():
@@ -1107,10 +1182,10 @@ def invalid_cases():
                             lines.reverse()
                         files.append({"path": NAMES[i], "raw": "[tool.pyanalyze]\n" + "\n".join(lines) + "\n"})
                     if place == "top":
-                        body = ["ignore_none_attributes = true", frag] if variant else [frag, "ignore_none_attributes = true"]
+                        body = [NEUTRAL, frag] if variant else [frag, NEUTRAL]
                         raw = "[tool.pyanalyze]\n" + "\n".join(body) + "\n"
                     else:
-                        body = ['module = "a.b"', "undefined_name = false", frag] if variant else [frag, 'module = "a.b"']
+                        body = ['module = "a.b"', NEUTRAL, frag] if variant else [frag, 'module = "a.b"']
                         raw = "[tool.pyanalyze]\nundefined_name = true\n[[tool.pyanalyze.overrides]]\n" + "\n".join(body) + "\n"
                     files.append({"path": NAMES[depth], "raw": raw})
                     yield cls, f"{frag!r} in {place} of file at depth {depth}", files
@@ -1132,7 +1207,7 @@ def invalid_cases():
             {"path": NAMES[i], "raw": f'[tool.pyanalyze]\nextend_config = "{NAMES[(i + 1) % 3]}"\nundefined_name = false\n'} for i in range(3)]),
     ]:
         yield "recursive-inclusion", desc, files
-    yield "main-file-missing", "main config file does not exist", [{"path": "elsewhere.toml", "raw": ""}]
+    yield "main-file-missing", "main config file does not exist", [{"path": "pyproject.toml", "raw": ""}]
 
 
 def invalid_outcome(main: str, entry: str):
@@ -1161,7 +1236,7 @@ def judge_invalid(cls: str, files: list, entry: str):
     work = scratch()
     main = work.materialise({"files": files})
     if cls == "main-file-missing":
-        main = os.path.join(os.path.dirname(main), "pyproject.toml")
+        main = os.path.join(os.path.dirname(main), "absent.toml")
     try:
         got = invalid_outcome(main, entry)
     finally:
@@ -1191,7 +1266,7 @@ def run_invalid(ctx, rep: Reporter) -> None:
             else:
                 rep.report(res[0], f"{desc} via {entry}: {res[1]}",
                            {"route": "invalid", "cls": cls, "entry": entry, "files": files, "desc": desc})
-        if i % (ctx.nshards * ctx.pick(12, 4)) == ctx.shard:  # the same through a real subprocess, sampled
+        if i % (ctx.nshards * ctx.pick(24, 4)) == ctx.shard:  # the same through a real subprocess, sampled
             check_invalid_cli(ctx, rep, cls, desc, files)
 
 
@@ -1199,7 +1274,7 @@ def check_invalid_cli(ctx, rep, cls, desc, files) -> None:
     work = scratch()
     main = work.materialise({"files": files})
     if cls == "main-file-missing":
-        main = os.path.join(os.path.dirname(main), "pyproject.toml")
+        main = os.path.join(os.path.dirname(main), "absent.toml")
     try:
         inproc = invalid_outcome(main, "main")
         cp = harness.run_cli(["--config-file", main, "--display-options"], cwd=os.path.dirname(main), env={"NO_COLOR": "1"})
@@ -1229,7 +1304,7 @@ def shard(ctx) -> None:
         total = ctx.pick(3200, 60000)
         n = total // ctx.nshards
         n_cmds = ctx.pick(2, 3)
-        every_cli = max(1, n // ctx.pick(2, 8))
+        every_cli = max(1, n // ctx.pick(1, 8))
         every_diag = max(1, n // ctx.pick(5, 40))
         every_cli_diag = max(1, n // ctx.pick(1, 4))
         for i in range(n):
@@ -1258,7 +1333,7 @@ def replay(witness):
                 found.append((r[0], f"{witness.get('desc', '')} via {witness['entry']}: {r[1]}"))
         elif route == "api" and witness.get("opt") is not None and "path" in witness:
             path = tuple(p for p in witness["path"].split(".") if p)
-            found = judge_stack_query({"files": witness["files"]}, witness["cmd"], path, witness["opt"])
+            found = judge_stack_query(stack_from_witness(witness["files"]), witness["cmd"], path, witness["opt"])
         else:
             ctx = Ctx(ID, "quick", 0, 0, 1)
             rep = Reporter(ctx, per_key=10**9)
@@ -1267,7 +1342,7 @@ def replay(witness):
             else:
                 sample = {"display": route in ("display", "cli-display"), "cli_display": route == "cli-display",
                           "diag": route == "diag", "cli_diag": route == "cli-diag"}
-                check_stack(ctx, rep, {"files": witness["files"]}, [witness["cmd"]], sample)
+                check_stack(ctx, rep, stack_from_witness(witness["files"]), [witness["cmd"]], sample)
             for key, lst in ctx.violations.items():
                 found.append((key, lst[0]["what"]))
     finally:
